@@ -19,7 +19,7 @@ ID = "C12"
 TITLE = "Imager geometry stays self-consistent under any configuration history"
 CASE_TIMEOUT_S = 60.0
 PLAN = {
-    "quick": {"runs": 6400, "chunk": 50, "shrink_s": 30.0},
+    "quick": {"runs": 24000, "chunk": 50, "shrink_s": 30.0},
     "thorough": {"budget_s": 600.0, "chunk": 50, "shrink_s": 60.0},
 }
 RULE = ("case = history of 1..12 operations over K=1..3 PersistenceImager instances interleaved by the scheduler: "
@@ -146,7 +146,8 @@ def gen_case(rng, tier):
         else:
             ops.append({"inst": k, "op": "reassign", "which": "pers_range"})
     # interleave constructors with later ops of other instances a little
-    return {"inputs": {}, "ops": ops, "config": {"probe_interior": rng.randint(1, 3)}}
+    return {"inputs": {}, "ops": ops, "config": {"probe_interior": rng.randint(1, 3),
+                                                  "interleave": rng.choice(("scheduler", "scheduler", "as-listed"))}}
 
 
 # ---------------------------------------------------------------- oracle
@@ -285,7 +286,8 @@ def run_case(case, sched):
     hard = 0
     skipped = 0
     kinds = set()
-    for opi, op in enumerate(ops):
+    from sim.sched import interleave
+    for opi, op in interleave(sched, ops, "inst", case["config"].get("interleave", "as-listed")):
         k = op.get("inst")
         kind = op.get("op")
         kinds.add(kind)
